@@ -1720,3 +1720,140 @@ def check_C09(run):
                            note='timing dependent: the real select reports readiness spuriously now and then; replaying the line usually passes'))
     run.cov['trusted_base'] = C.GLOBAL_TRUST + ['OS scheduling fairness, TCP time-outs and the ssh child\'s own exit are assumptions; a source file that grows forever is excluded',
                                                 'real thread timing is sampled (watchdog runs); the schedule quantifier is carried by the transition-system theorems']
+
+
+# ------------------------------------------------------------------ C18
+
+ODD_NAMES = [b'plain', b'sp ace', b'new\nline', b'back\\slash', b'\xff\xfe\x80', 'é'.encode(), b'a' * 255, b'-dash', b'*glob?[x]', b'.hidden', b'tab\t', b'quote"\'', b'..x', b'C:', b'{}', b'%TEMP%', '\U0001f600'.encode()]
+ODD_TIMES_NS = [-10**18, -1, 0, 1, 999_999_999, 10**18, 2**33 * 10**9, 10**11 * 10**9, -2**31 * 10**9, 253402300800 * 10**9]
+
+
+def fuzz_tree(rng, root, n=None):
+    import socket, stat
+    os.makedirs(root, exist_ok=True)
+    dirs = [os.fsencode(root)]
+    made = []
+    for _ in range(n if n is not None else rng.randint(0, 10)):
+        d = rng.choice(dirs); name = rng.choice(ODD_NAMES)
+        p = os.path.join(d, name)
+        if os.path.lexists(p):
+            continue
+        k = rng.random()
+        try:
+            if k < 0.45:
+                with open(p, 'wb') as f:
+                    f.write(b'x' * rng.choice([0, 1, 31, 4096, 4097, 70000]))
+                t = rng.choice(ODD_TIMES_NS); os.utime(p, ns=(t, t)); made.append(('file', t))
+            elif k < 0.65:
+                os.mkdir(p); dirs.append(p); made.append(('dir',))
+                if rng.random() < 0.3:
+                    t = rng.choice(ODD_TIMES_NS); os.utime(p, ns=(t, t))
+            elif k < 0.85:
+                os.symlink(rng.choice([b'plain', b'/abs/x', b'\xff\xfe', b'../..', b'a\\b', b'', b'.', name, b'x' * 300]) or b'empty', p); made.append(('symlink',))
+            elif k < 0.9:
+                os.mkfifo(p); made.append(('fifo',))
+            elif k < 0.95:
+                s = socket.socket(socket.AF_UNIX); s.bind(p if len(p) < 100 else os.path.join(d, b'sock')); s.close(); made.append(('socket',))
+            else:
+                os.mknod(p, 0o600 | stat.S_IFCHR, os.makedev(1, 3)); made.append(('chardev',))
+        except OSError:
+            pass
+    return made
+
+
+FLAGS = [['--dry-run'], ['--no-progress'], ['--stats'], ['-q'], ['-v'], ['--quiet', '--verbose'], ['--filter', '+.*'], ['--filter', '-('], ['--filter', 'nosign'], ['--filter', '-\\xff'],
+         ['--dest-file-newer', 'overwrite'], ['--dest-file-newer', 'bogus'], ['--dest-file-older', 'skip'], ['--files-same-time', 'overwrite'], ['--dest-entry-needs-deleting', 'delete'],
+         ['--dest-entry-needs-deleting', 'prompt'], ['--dest-root-needs-deleting', 'delete'], ['--dest-root-needs-deleting', 'skip'], ['--all-destructive-behaviour', 'proceed'],
+         ['--all-destructive-behaviour', 'error'], ['--remote-port', '0'], ['--remote-port', 'abc'], ['--remote-port', '70000'], ['--deploy', 'error'], ['--bogus-flag'], ['--list-embedded-binaries'],
+         ['--generate-auto-complete-script', 'bash'], ['--generate-auto-complete-script', 'nope'], ['--version'], ['--help'], ['--'], ['']]
+
+
+@prop('C18')
+def check_C18(run):
+    from . import l3, l4
+    import shutil, subprocess
+    thorough = run.tier == 'thorough'
+    if not prepare(run, need_cli=True):
+        return
+    rng = run.rng
+    run.cov['rule'] = ('L4 fuzz of the CLI: trees with odd names (non-UTF-8, backslashes, newlines, 255-byte components), lengths, times (pre-1970, epoch, far future), FIFOs / sockets / devices, odd symlink texts; '
+                       'argument vectors from the clap grammar plus mutations; mutated YAML spec texts; oracle: exit status in {0,2,10,11,12,18,19}, no signal, no time-out, a message whenever it fails, no "panicked at"; '
+                       'plus the panic-site inventory against the committed classification; non-trivial = the run reached the sync (status 0 or 12) on a non-empty tree or was rejected by the front end; distinct by (tree shape, argv)')
+    sb = l4.Sandbox()
+    fails = []
+    try:
+        n = 300 if not thorough else 5000
+        for i in range(n):
+            base = os.path.join(sb.dir, f'z{i}'); os.makedirs(base)
+            src, dst = os.path.join(base, 'src'), os.path.join(base, 'dst')
+            made = fuzz_tree(rng, src)
+            if rng.random() < 0.7:
+                made2 = fuzz_tree(rng, dst)
+            else:
+                made2 = []
+            mode = rng.random()
+            spec_text = None
+            if mode < 0.6:
+                args = [rng.choice([src, src + '/', src + '//', os.path.relpath(src, base)]), rng.choice([dst, dst + '/', os.path.join(dst, 'a/b/'), dst + '\\'])]
+                for _ in range(rng.choice([0, 0, 1, 2, 3])):
+                    args += rng.choice(FLAGS)
+                if rng.random() < 0.1:
+                    args = args[rng.randint(0, 1):]        # drop a positional
+                if rng.random() < 0.15:
+                    rng.shuffle(args)
+            elif mode < 0.85:
+                good = f'syncs:\n  - src: {src}/\n    dest: {dst}/\n    filters: [ "+.*" ]\n    dest_file_newer_behaviour: overwrite\n  - src: {src}\n    dest: {dst}2\n'
+                t = good
+                toks = ['syncs', 'src', ':', '-', '[', ']', '"', '\n', '  ', 'filters', '~', '&a', '*a', '---\n', '{', '}', '\xe9', 'deploy_behaviour: ok\n', '!!binary ', '? ', '\t']
+                for _ in range(rng.randint(0, 3)):
+                    j = rng.randrange(len(t) + 1)
+                    t = t[:j] + rng.choice(toks) + t[j + rng.choice([0, 0, 3]):]
+                spec_text = t
+                sp = os.path.join(base, 'spec.yaml'); open(sp, 'w').write(t)
+                args = ['--spec', sp] + (rng.choice(FLAGS) if rng.random() < 0.4 else [])
+            else:
+                args = [rng.choice(['', 'x', src, ':', 'h:', '@h:p', '\n', '-', '--spec']) for _ in range(rng.randint(0, 4))]
+                for _ in range(rng.randint(0, 2)):
+                    args += rng.choice(FLAGS)
+            r = l4.run_cli(args, env=sb.env({'RJRSSYNC_TEST_PROMPT_RESPONSE': ''}), timeout=30, cwd=base)
+            nt = (r['rc'] in (0, 12) and bool(made)) or r['rc'] in (2, 18)
+            run.case(('fuzz', tuple(args), str(made), str(made2)), nt,
+                     sample=dict(layer='L4', args=[a[-60:] for a in args], src_tree=[m[0] for m in made], rc=r['rc']) if i % 40 == 0 else None)
+            run.count('fuzz:rc=' + str(r['rc']))
+            why = None
+            if r['timeout']:
+                why = 'time-out'
+            elif r['rc'] not in (0, 2, 10, 11, 12, 18, 19):
+                why = f'exit status {r["rc"]}' + (' (signal)' if r['rc'] is not None and r['rc'] < 0 else '')
+            elif 'panicked at' in r['err']:
+                why = 'panic message'
+            elif r['rc'] != 0 and not (r['err'].strip() or r['out'].strip()):
+                why = 'failure without a message'
+            if why:
+                tree_desc = subprocess.run(['find', base, '-printf', '%y %TY %s %P\\n'], capture_output=True).stdout.decode(errors='backslashreplace')[:1500]
+                fails.append(dict(layer='L4', why=why, args=args, rc=r['rc'], stderr=r['err'][-800:], tree=tree_desc, spec_text=spec_text, src_kinds=made, dst_kinds=made2))
+                if len(fails) >= 3:
+                    break
+            subprocess.run(['chmod', '-R', 'u+rwx', base], capture_output=True); shutil.rmtree(base, ignore_errors=True)
+        # the recorded witness: a file dated before 1970
+        base = os.path.join(sb.dir, 'pre1970'); src, dst = base + '/src', base + '/dst'
+        l3.make_tree(src, [('', 'D'), ('old-file', 'F', b'x', -10**18)])
+        r = l4.run_cli([src + '/', dst + '/'], env=sb.env(), timeout=30)
+        run.case(('pre-1970',), True, sample=dict(layer='L4', case='file dated 1938', rc=r['rc'], stderr=r['err'][-200:]))
+        run.count('witness:pre-1970:rc=' + str(r['rc']))
+        if r['rc'] not in (0, 12) or 'panicked at' in r['err']:
+            fails.insert(0, dict(layer='L4', why='a file with a modification time before 1970 crashes the run', args=[src + '/', dst + '/'], rc=r['rc'], stderr=r['err'][-800:],
+                                 tree='src/old-file mtime=-10^18 ns (1938)'))
+    finally:
+        subprocess.run(['chmod', '-R', 'u+rwx', sb.dir], capture_output=True); sb.close()
+
+    def on_broken(failed):
+        return dict(found_by='CLI fuzz / recorded witness', **fails[0]) if fails else None
+    C.proofs_step(run, 'C18', on_broken)
+    if fails and not any(not v[1] for v in run.violations):
+        run.violation(dict(kind='oracle-failed-on-implementation', oracle='documented exit status, a message on failure, never a panic / signal / time-out', failing_cases=len(fails), **fails[0]))
+    st = run.extract_status
+    if 'panic-sites' in st:
+        run.cov['panic_sites_unclassified'] = st['panic-sites']
+    run.cov['trusted_base'] = C.GLOBAL_TRUST + ['Lean totality says nothing about Rust panics: the proof side is the closed panic-site inventory (extracted) with a guard per group (panic_sites.json); groups classified environmental/differential are assumptions',
+                                                'inputs: file-system contents expressible on this host (tmpfs/ext4 as root), argv, YAML; Windows code paths are not compiled here']
